@@ -78,12 +78,118 @@ class C22(Check):
                 "others": rng.randrange(2 ** 32)}
 
     def gen_cases(self):
-        return [self.make_case(self.rng) for _ in range(400 if self.tier == "quick" else 6000)]
+        import random
+        cases = [self.make_case(self.rng) for _ in range(400 if self.tier == "quick" else 6000)]
+        if ebpf_exec.kernel_available():
+            rng = random.Random(self.seed + 22)      # its own stream: the cases above stay what they were
+            for _ in range(6 if self.tier == "quick" else 40):
+                # a whole history on the REAL dispatcher in the running kernel, the loop counter starting below a wrap of its low byte / of its 32 bits
+                cases.append({"kind": "history", "g": rng.choice([0, 5, 63]), "c0": rng.choice([0, 1, 200, 250, 65500, 2 ** 32 - 40, rng.randrange(2 ** 32)]),
+                              "steps": rng.randint(120, 400), "loss": rng.choice([0, 0.02, 0.1]), "seed": rng.randrange(2 ** 30)})
+        return cases
+
+    def run_history(self, case):
+        """two frames circulate; a frame handed to user space is replaced by a fresh one (index 0), lost frames are made up for; every
+        delivery runs the real dispatcher (BPF_PROG_TEST_RUN), which tail-calls a counting stand-in for the group's program"""
+        import ctypes
+        import os
+        import random
+        from ebpfcat import bpf
+        from ebpfcat.arraymap import ArrayMap
+        from ebpfcat.ebpfcat import EtherXDP, FastEtherCat
+        from ebpfcat.xdp import XDP, XDPExitCode
+        g, rng = case["g"], random.Random(case["seed"])
+
+        class Group(XDP):
+            license = "GPL"
+            minimumPacketSize = 30
+            variables = ArrayMap()
+            runs = variables.globalVar("I")
+
+            def program(self):
+                self.runs += 1
+                self.exit(XDPExitCode.TX)
+
+        def test_run(prog, frame):
+            din = ctypes.create_string_buffer(frame, len(frame))
+            dout = ctypes.create_string_buffer(len(frame) + 64)
+            _, vals = bpf.bpf(10, "IIIIQQII20x", prog.file_descriptor, 0, len(din), len(dout), ctypes.addressof(din), ctypes.addressof(dout), 1, 0)
+            return vals[1], dout.raw[:vals[3]]
+
+        def fresh():
+            f = bytearray(60)
+            f[0:6], f[6:12], f[12:14] = b"\xff" * 6, b"\x02\0\0\0\0\x01", b"\x88\xa4"
+            struct.pack_into("<H", f, 14, 0x1000 | 44)
+            struct.pack_into("<I", f, 18, g)
+            struct.pack_into("<H", f, 22, 0x8002)
+            struct.pack_into("<H", f, 26, 0x3456)
+            f[30] = 4
+            return bytes(f)
+        fds = []
+        try:
+            programs = bpf.create_map(bpf.MapType.PROG_ARRAY, 4, 4, FastEtherCat.MAX_PROGS)
+            fds.append(programs)
+            disp = EtherXDP()
+            disp.programs = programs
+            disp.load()
+            group = Group()
+            group.load()
+            bpf.update_elem(programs, struct.pack("<I", g), struct.pack("<I", group.file_descriptor))
+            cs = list(disp.counters)
+            cs[g] = case["c0"]
+            disp.counters = tuple(cs)
+            wire, idle, worst, bad, diffs, ran_total, to_user, lost = [fresh(), fresh()], 0, 0, [], 0, 0, 0, 0
+            for step in range(case["steps"]):
+                if step and rng.random() < case["loss"]:
+                    wire.pop(rng.randrange(len(wire)))
+                    wire.append(fresh())
+                    lost += 1
+                frame = wire.pop(rng.randrange(len(wire)) if rng.random() < 0.2 else 0)
+                before, c = group.runs, disp.counters[g]
+                verdict, out = test_run(disp, frame)
+                ran = group.runs != before
+                c2, idx, kd = core(c, frame[17])
+                got = "tail" if ran else "tx" if verdict == 3 else "user" if verdict == 2 else f"verdict {verdict}"
+                if (got, disp.counters[g]) != (kd, c2) or (kd != "user" and out[17] != idx):
+                    diffs += 1
+                    if len(bad) < 3:
+                        bad.append(f"step {step}: counter {c}, frame index {frame[17]}: the kernel ran the real dispatcher to ({got}, counter {disp.counters[g]}, "
+                                   f"index {out[17]}), the dispatch model says ({kd}, counter {c2}, index {idx})")
+                if verdict == 3:
+                    wire.append(out)
+                elif verdict == 2:
+                    to_user += 1
+                    if out[12:14] != b"\x34\x56":
+                        bad.append(f"step {step}: frame handed to user space with ethertype {out[12:14].hex()}")
+                    wire.append(fresh())
+                else:
+                    bad.append(f"step {step}: the dispatcher dropped a frame (verdict {verdict}), loop counter {c}, frame index {frame[17]}")
+                    wire.append(fresh())
+                idle = 0 if ran else idle + 1
+                ran_total += ran
+                if idle > 2 and idle > worst:
+                    bad.append(f"step {step}: {idle} consecutive frames of registered group {g} passed the dispatcher without its program being run "
+                               f"(loop counter {c}, frame index {frame[17]}, verdict {verdict})")
+                worst = max(worst, idle)
+            return {"bad": bad[:6], "nbad": len(bad), "diffs": diffs, "ran": ran_total, "to_user": to_user, "lost": lost, "worst_idle": worst,
+                    "final_counter": disp.counters[g]}
+        finally:
+            for o in ("disp", "group"):
+                fd = getattr(locals().get(o), "file_descriptor", None)
+                if fd is not None:
+                    fds.append(fd)
+            for fd in fds:
+                try:
+                    os.close(fd)
+                except OSError:
+                    pass
 
     def prepare(self, cases):
         b = build()
         self.b = b
         terms = []
+        hist = [c for c in cases if c.get("kind") == "history"]
+        cases = [c for c in cases if c.get("kind") != "history"]
         for c in cases:
             amap = bytearray(b["map_size"])
             for k in range(64):
@@ -92,12 +198,20 @@ class C22(Check):
             c["_map"] = bytes(amap)
             f = bytes.fromhex(c["frame"])
             terms.append(f"(exec_vars P {ebpf_exec.cbytes(f)} [{ebpf_exec.cbytes(amap)}; []] [{c['prandom']}; {1 if c['registered'] else 0}] [])")
+        if not terms:
+            return ""
         vals, log = eval_terms(self.pid, self.corr_imports, terms, shard=150, preamble=f"Definition P := {ebpf_exec.cprog(b['instrs'])}.")
         for c, v in zip(cases, vals):
             c["_run"] = v
         return log
 
     def run_impl(self, case):
+        if case.get("kind") == "history":
+            try:
+                return self.run_history(case)
+            except Exception as e:      # noqa
+                import traceback
+                return Err(8, f"{type(e).__name__}: {e} {traceback.format_exc()[-400:]}")
         r = case["_run"]
         if r is None:
             return Err(9, "model evaluation failed")
@@ -114,7 +228,7 @@ class C22(Check):
         return o
 
     def model_term(self, case):
-        if case.get("_o") is None:
+        if case.get("kind") == "history" or case.get("_o") is None:
             return None
         return f"(run {cbool(case['registered'])} {ebpf_exec.cbytes(bytes.fromhex(case['frame']))} {ebpf_exec.cbytes(case['_map'])})"
 
@@ -124,6 +238,10 @@ class C22(Check):
     def holds(self, case, o):
         if isinstance(o, Err):
             return o.what
+        if case.get("kind") == "history":
+            if o["nbad"] or o["diffs"]:
+                return f"history of {case['steps']} deliveries on the real dispatcher in the kernel, loop counter starting at {case['c0']}: {o['bad'][0]} ({o['nbad']} findings, {o['diffs']} differences from the model)"
+            return True
         f = bytes.fromhex(case["frame"])
         g2 = bytes.fromhex(o["frame"])
         a = o["action"]
@@ -214,12 +332,17 @@ class C22(Check):
     def rule(self):
         return ("frames of 31-70 random bytes: 60% group frames (EtherCAT ethertype, identification datagram) of a random group 0..63 with the frame index equal "
                 "to / one below / one above / two below the loop counter byte, 0 or random, counters 0, 1, 2, 3, 254..257, 511, 2**32-2, 2**32-1, random, "
-                "registered or not; foreign ethertypes, first datagram not a NOP, frames of 14-30 bytes, addresses that are no fast group (64, 65, 1000, 2**32-1, a group number plus a multiple of 64 / 256 / 65536 / 2**24 / 2**31, the addresses roundtrip_packet draws); all other counters random")
+                "registered or not; foreign ethertypes, first datagram not a NOP, frames of 14-30 bytes, addresses that are no fast group (64, 65, 1000, 2**32-1, a group number plus a multiple of 64 / 256 / 65536 / 2**24 / 2**31, the addresses roundtrip_packet draws); all other counters random; plus (when bpf() is permitted) whole histories of 120-400 deliveries on the REAL dispatcher loaded into the running kernel (BPF_PROG_TEST_RUN, a counting stand-in as the group's program), loop counter starting at 0, 200, 250, 65500, 2**32-40 or random, losses 0 / 2% / 10%, 20% of the deliveries out of order: every step is compared with the dispatch model and the property is checked on the history itself")
 
     def distribution(self, cases, observed):
         d = {}
         for o in observed:
-            if not isinstance(o, Err):
+            if not isinstance(o, Err) and "action" not in o:
+                d["kernel_histories"] = d.get("kernel_histories", 0) + 1
+                d["kernel_deliveries_program_ran"] = d.get("kernel_deliveries_program_ran", 0) + o["ran"]
+                d["kernel_frames_lost"] = d.get("kernel_frames_lost", 0) + o["lost"]
+                d["kernel_frames_to_user"] = d.get("kernel_frames_to_user", 0) + o["to_user"]
+            elif not isinstance(o, Err):
                 k = str(o["action"][0])
                 d[k] = d.get(k, 0) + 1
         d["exploration"] = getattr(self, "exploration", None)
